@@ -113,7 +113,7 @@ class C04(core.Check):
                                        'means:align', 'means:created-zone', 'order:ascending', 'order:descending',
                                        'order:interleaved', 'overlap:non-adjacent', 'expect:REJECT', 'expect:ACCEPT',
                                        'output:bin', 'output:nobin', 'output:both', 'window-excludes-the-overlap',
-                                       'means:macro-with-non-byte-steps', 'means:embedded-string', 'embedded-string:two-byte-character', 'embedded-string:three-byte-character', 'means:global-relative-org', 'unselected-origin-before-bytes']}
+                                       'means:macro-with-non-byte-steps', 'means:embedded-string', 'means:zerountil-behind-the-cursor', 'embedded-string:two-byte-character', 'embedded-string:three-byte-character', 'means:global-relative-org', 'unselected-origin-before-bytes']}
 
     def build(self, rng, items, means_list=None, order=None, mute=None, out_mode=None):
         """items: [(addr, len)]"""
@@ -306,6 +306,29 @@ class C04(core.Check):
                                     'intervals': [[a0, sz], [other, 1]], 'out_mode': 'bin'},
                            'tags': sorted({'means:embedded-string', 'embedded-string:' + sname, 'expect:' + ('REJECT' if overlap else 'ACCEPT'),
                                            'output:bin', 'order:ascending' if (other >= a0) == (order != 'string-last') else 'order:descending'})}
+        # a .zerountil whose target lies behind the cursor occupies nothing and moves nothing: the next line follows the
+        # previous bytes, and a later line on an address already used still overlaps
+        isa_z = gen_prog.layout_isa(16)
+        fn_z, text_z = isamod.render_isa(isa_z, 'json')
+        for a0 in (0x20, 0x100):
+            for behind in (1, 2, 3, 5, 17):
+                for shape in ('disjoint', 'overlap'):
+                    if shape == 'disjoint':
+                        lines_ = [f'.org {a0}', '.byte 1, 2, 3, 4', f'.zerountil {a0 + 4 - behind}', '.byte 5']
+                        M_ = {a0 + i: i + 1 for i in range(5)}
+                        iv_ = [[a0, 4], [a0 + 4, 1]]
+                    else:
+                        lines_ = [f'.org {a0}', f'.zerountil {a0 - behind}', '.byte $11', f'.org {a0}', '.byte $22']
+                        M_ = {a0: 0x11}
+                        iv_ = [[a0, 1], [a0, 1]]
+                    end_ = a0 + 8
+                    yield {'runs': [{'files': {fn_z: text_z, 'p.asm': '\n'.join(lines_) + '\n'},
+                                     'argv': ['compile', '-c', fn_z, 'p.asm', '-o', 'out.bin', '-e', str(end_)],
+                                     'probes': ['steps'], 'step_limit': 300000}],
+                           'meta': {'kind': 'REJECT' if shape == 'overlap' else 'ACCEPT', 'M': {str(k): v for k, v in M_.items()}, 'end': end_,
+                                    'intervals': iv_, 'out_mode': 'bin'},
+                           'tags': sorted({'means:zerountil-behind-the-cursor', 'expect:' + ('REJECT' if shape == 'overlap' else 'ACCEPT'),
+                                           'output:bin', 'order:ascending'})}
         # GLOBAL redefined with a non-zero start: '.org v "GLOBAL"' is v above that start, '.org a' is absolute
         for gs in (0x100, 0x10):
             isa_g = gen_prog.layout_isa(16, global_zone=(gs, 0x7FFF), origin=gs)
